@@ -214,4 +214,6 @@ def run(tier):
     header_rule(fx, ck)
     guard_rule(fx, ck)
     unguarded_rule(fx, ck)
+    import arraylen
+    arraylen.rule(fx, ck)
     return ck.finish()
